@@ -44,6 +44,8 @@ CHECKS = {
     "C16": retry("M |= sleep-handler protocol monitor for all decision sequences, before_sleep present/absent, "
                  "policy-level / call-level / both placements (decoy callbacks), awaitable variants", "5/C16"),
     "C07": ("model_checking",
+            "Apalache inductive invariant of BreakerInd.tla (M agrees with the reference for arbitrary integer "
+            "parameters and times; bound to Breaker.tla by the TLC cross-check BreakerIndX.tla); "
             "TLC exhaustive check of Breaker.tla (M vs reference), of PolicyCall.tla + PolicyMon.tla (policy calls "
             "in front of the breaker) and of ConcCalls.tla / PolicyConc.tla (concurrent calls, all interleavings); "
             "graph replay on the real CircuitBreaker; every exported sequential and concurrent behaviour replayed "
@@ -138,6 +140,9 @@ CHECKS = {
             "HTTP-date expectations use the real wall clock with 5 s tolerance",
             "5/C20"),
     "C06": ("model_checking",
+            "Apalache inductive invariant of BreakerInd.tla (M agrees with the unpruned-log reference for arbitrary "
+            "integer thresholds, windows, timeouts and times; mutants refuted; bound to Breaker.tla by the TLC "
+            "cross-check BreakerIndX.tla) + "
             "TLC exhaustive check of Breaker.tla (deque model M vs unpruned-log reference P) + replay of "
             "every transition of M's exported graph on the real CircuitBreaker + TLC trace validation "
             "of recorded random histories",
@@ -146,6 +151,9 @@ CHECKS = {
             "virtual clock with whole ticks; observation through allow()/record_*()/state only",
             "5/C06"),
     "C10": ("model_checking",
+            "Apalache inductive invariant of BudgetInd.tla (no over-grant, no refusal with capacity, window bound for "
+            "arbitrary integer max_retries, window and times; mutants refuted; bound to Budget.tla by the TLC "
+            "cross-check BudgetIndX.tla) + "
             "TLC exhaustive check of Budget.tla (deque model vs grant-log reference) and of RetryLoop.tla with the "
             "shared windowed budget + graph replay on the real Budget + behaviour replay through the real runners + "
             "TLC trace validation of recorded histories",
